@@ -315,6 +315,8 @@ def history_chunk(args):
         pp.set_default_config(**{k: v for k, v in original.items() if k != 'indent'})
         sets = [{k: v for k, v in original.items() if k != 'indent'}]
         my_combos = rng.sample(combos, rng.choice([1, 2, 3]))
+        # printers constructed NOW, used later: what they were not given is looked up when they print, not when they were built
+        early = {ex_sx(c): pp.PrettyPrinter(**c) for c in my_combos}
         for step in range(length):
             if rng.random() < 0.5:
                 u = rand_explicit(rng, ORDER[1:], rng.choice([0.2, 0.5]))
@@ -342,6 +344,7 @@ def history_chunk(args):
                     s1 = io.StringIO()
                     pp.pprint(value, stream=s1, end='', **explicit)
                     via_class = pp.PrettyPrinter(**explicit).pformat(value)
+                    via_early = early[ex_sx(explicit)].pformat(value)
                     rep = repr(Registered(probe)) if not explicit else None
                     rep_want = pp.pformat(Registered(probe), **d_spec) if not explicit else None
                 dflt = dict(pp.get_default_config())
@@ -355,6 +358,8 @@ def history_chunk(args):
                     bad = 'pprint(v, **given) != pformat(v, **effective settings)'
                 elif via_class != want:
                     bad = 'PrettyPrinter(**given).pformat(v) != pformat(v, **effective settings)'
+                elif via_early != want:
+                    bad = 'a PrettyPrinter(**given) constructed before the defaults were changed prints with the defaults of its construction time, not with those in force'
                 elif rep != rep_want:
                     bad = 'pretty_repr != pformat with the defaults in force'
                 elif dflt != d_spec:
@@ -374,6 +379,29 @@ def history_chunk(args):
     return n, nt, mism, fails
 
 
+class Blank:
+    """a value whose registered printer returns the empty document"""
+
+
+pp.register_pretty(Blank)(lambda v, ctx: '')
+
+
+def blank_value_check():
+    """a value that is printed as nothing at all: every entry point still writes exactly pformat's text (the empty string) + end"""
+    bad = []
+    for end in ('\n', 'END', ''):
+        for v, label in ((Blank(), 'Blank()'), ([Blank()], '[Blank()]')):
+            want = pp.pformat(v) + end
+            outs = {}
+            s1 = io.StringIO(); pp.pprint(v, stream=s1, end=end); outs['pprint'] = s1.getvalue()
+            s2 = io.StringIO(); pp.cpprint(v, stream=s2, end=end); outs['cpprint'] = s2.getvalue()
+            s3 = io.StringIO(); pp.PrettyPrinter(stream=s3, end=end).pprint(v); outs['PrettyPrinter.pprint'] = s3.getvalue()
+            for k, got in outs.items():
+                if got != want and '\x1b' not in got:
+                    bad.append({'kind': 'entry-points-disagree', 'why': '%s(%s, end=%r) wrote %r, pformat + end is %r' % (k, label, end, got, want), 'case': label})
+    return bad[:3]
+
+
 def history_section(tier, seed):
     n_chunks = NCPU
     n_hist = 6 if tier == 'quick' else 60
@@ -386,6 +414,7 @@ def history_section(tier, seed):
             nt += b
             mism.extend(mm)
             fails.extend(ff)
+    fails = list(fails) + blank_value_check()
     stats = {'evaluations': tot, 'distinct_nontrivial': nt, 'mismatches': len(mism), 'histories': n_chunks * n_hist, 'steps_per_history': length,
              'rule': 'histories of %d steps in one interpreter without resets: set_default_config calls (random subsets of five settings) interleaved with '
                      'pformat / pprint / PrettyPrinter / pretty_repr of a few recurring argument combinations; every observation must equal pformat with all six '
